@@ -19,6 +19,15 @@ func init() {
 	zzverif.Register("VerifC03PostingF6", VerifC03PostingF6)
 	zzverif.Register("VerifC03PostingF7", VerifC03PostingF7)
 	zzverif.Register("VerifC03PostingF8", VerifC03PostingF8)
+	zzverif.Register("VerifC03PostingD0", VerifC03PostingD0)
+	zzverif.Register("VerifC03PostingD1", VerifC03PostingD1)
+	zzverif.Register("VerifC03PostingD2", VerifC03PostingD2)
+	zzverif.Register("VerifC03PostingD3", VerifC03PostingD3)
+	zzverif.Register("VerifC03PostingD4", VerifC03PostingD4)
+	zzverif.Register("VerifC03PostingD5", VerifC03PostingD5)
+	zzverif.Register("VerifC03PostingD6", VerifC03PostingD6)
+	zzverif.Register("VerifC03PostingD7", VerifC03PostingD7)
+	zzverif.Register("VerifC03PostingD8", VerifC03PostingD8)
 }
 
 // posting := IND [ status SP ] acct-part [ GAP amount [ WS cost ] [ WS assertion ] ]
@@ -323,8 +332,57 @@ func VerifC03PostingF6() { verifC03Posting(c03PostingFocus(6)) }
 func VerifC03PostingF7() { verifC03Posting(c03PostingFocus(7)) }
 func VerifC03PostingF8() { verifC03Posting(c03PostingFocus(8)) }
 
-func VerifC03PostingDeep() {
-	verifC03Posting(c03PostCfg{indN: 9, statusN: 3, virtN: 3, freeAcct: true, nSeg: 3, nChar: 3, gapN: 3, amt: 1, forms: c03AllForms, syms: c03AllSyms,
-		nSym: 4, shapes: c03NumShapes(true), costN: 3, assertN: 3, costForms: c03AllForms, costSyms: c03AllSyms, assForms: c03AllForms, assSyms: c03AllSyms, subShapes: c03NumShapes(false),
-		cmnts: c03AllCmnts, nCmnt: 3, wsN: 3, cmntWS: 3, crlf: 1, wideFirst: 7, wideRest: 1})
+// thorough tier: the same focuses with larger bounds (the product of all parts is out of reach)
+func c03PostingDeepFocus(f int) c03PostCfg {
+	noC := []int{-1}
+	one := c03SimpleShapes[:1]
+	switch f {
+	case 0: // account names: up to 3 segments of one character (or "x y"), every status, every virtual kind, all representatives
+		return c03PostCfg{indN: 1, statusN: 3, virtN: 3, svSplit: true, freeAcct: true, nSeg: 3, nChar: 1, gapN: 1, amt: 1, forms: []int{0, 3}, syms: []int{2},
+			nSym: 1, shapes: one, costN: 1, assertN: 1, cmnts: []int{-1, 0}, cmntBare: true, nCmnt: 1, wsN: 1, wideFirst: 7, wideRest: 1}
+	case 1: // account names: 2 segments of up to 3 characters
+		return c03PostCfg{indN: 1, statusN: 2, virtN: 2, svSplit: true, freeAcct: true, nSeg: 2, nChar: 3, gapN: 1, amt: 1, forms: []int{0, 3}, syms: []int{2},
+			nSym: 1, shapes: one, costN: 1, assertN: 1, cmnts: []int{-1, 0}, cmntBare: true, nCmnt: 1, wsN: 1, wideFirst: 3, wideRest: 1}
+	case 2: // every number notation (long ones included) in every amount form
+		return c03PostCfg{indN: 1, statusN: 1, virtN: 1, gapN: 1, amt: 2, forms: c03AllForms, syms: []int{0, 2, 3},
+			nSym: 1, shapes: c03NumShapes(true), costN: 1, assertN: 1, cmnts: noC, wsN: 1}
+	case 3: // every amount form with every symbol kind, symbols up to 4 characters, every gap
+		return c03PostCfg{indN: 1, statusN: 1, virtN: 3, gapN: 3, amt: 2, forms: c03AllForms, syms: c03AllSyms,
+			nSym: 4, shapes: c03SimpleShapes, costN: 1, assertN: 1, cmnts: []int{-1, 0}, nCmnt: 1, wsN: 1, cmntWS: 3}
+	case 4: // cost: every form and symbol kind of the cost amount; the assertion is absent or simple
+		return c03PostCfg{indN: 1, statusN: 1, virtN: 1, gapN: 1, amt: 2, forms: []int{0, 3, 11}, syms: []int{2, 4},
+			nSym: 2, shapes: one, costN: 3, assertN: 3, costForms: c03AllForms, costSyms: c03AllSyms,
+			assForms: []int{0, 3, 11}, assSyms: []int{2}, subShapes: one, cmnts: []int{-1, 0}, nCmnt: 1, wsN: 2}
+	case 5: // assertion: every form and symbol kind of the asserted amount; the cost is absent or simple
+		return c03PostCfg{indN: 1, statusN: 1, virtN: 1, gapN: 1, amt: 2, forms: []int{0, 3, 11}, syms: []int{2, 4},
+			nSym: 2, shapes: one, costN: 3, assertN: 3, assForms: c03AllForms, assSyms: c03AllSyms,
+			costForms: []int{0, 3, 11}, costSyms: []int{2}, subShapes: one, cmnts: []int{-1, 0}, nCmnt: 1, wsN: 2}
+	case 6: // comment with tags (leaves up to 2 characters) after an account, a number, a code, a lower-case symbol, an assertion
+		return c03PostCfg{indN: 1, statusN: 1, virtN: 2, gapN: 1, amt: 1, forms: []int{0, 11}, syms: []int{2, 4},
+			nSym: 1, shapes: one, costN: 1, assertN: 2, assForms: []int{0, 11}, assSyms: []int{2}, subShapes: one,
+			cmnts: c03AllCmnts[1:], nCmnt: 2, wsN: 1, cmntWS: 3}
+	case 7: // indentation x status x virtual kind
+		return c03PostCfg{indN: 9, statusN: 3, virtN: 3, gapN: 3, amt: 1, forms: []int{0, 3, 11}, syms: []int{0, 2}, nSym: 1, shapes: one, costN: 1, assertN: 1, cmnts: []int{-1, 0}, nCmnt: 1, wsN: 1, cmntWS: 2}
+	case 8: // every number notation inside cost and assertion
+		return c03PostCfg{indN: 1, statusN: 1, virtN: 1, gapN: 1, amt: 2, forms: []int{0}, shapes: one, costN: 2, assertN: 2,
+			costForms: []int{0, 3, 13}, costSyms: []int{0, 2}, assForms: []int{1, 4, 11}, assSyms: []int{0, 2}, nSym: 1, subShapes: c03NumShapes(false), cmnts: noC, wsN: 1}
+	default: // CRLF after every kind of last token
+		return c03PostingFocus(8)
+	}
 }
+
+const c03PostingDeepFocuses = 10
+
+func VerifC03PostingDeep() {
+	verifC03Posting(c03PostingDeepFocus(zzverif.Choice("focus", c03PostingDeepFocuses)))
+}
+
+func VerifC03PostingD0() { verifC03Posting(c03PostingDeepFocus(0)) }
+func VerifC03PostingD1() { verifC03Posting(c03PostingDeepFocus(1)) }
+func VerifC03PostingD2() { verifC03Posting(c03PostingDeepFocus(2)) }
+func VerifC03PostingD3() { verifC03Posting(c03PostingDeepFocus(3)) }
+func VerifC03PostingD4() { verifC03Posting(c03PostingDeepFocus(4)) }
+func VerifC03PostingD5() { verifC03Posting(c03PostingDeepFocus(5)) }
+func VerifC03PostingD6() { verifC03Posting(c03PostingDeepFocus(6)) }
+func VerifC03PostingD7() { verifC03Posting(c03PostingDeepFocus(7)) }
+func VerifC03PostingD8() { verifC03Posting(c03PostingDeepFocus(8)) }
